@@ -230,9 +230,10 @@ def buffer_new_constant(sc):
     if f is None: return None
     res = ir.Resolver(f)
     for x in f.ins:
-        if x.op == 'icmp' and x.pred == 'eq' and x.ops[1][0] == 'int':
-            d = f.def_of(S.strip_ext(f, x.ops[0]))
-            if d is not None and d.op == 'load' and sc.is_buf(res.loc(d.ops[0]), 'yy_buffer_status'): return x.ops[1][1]
+        if x.op == 'icmp' and x.pred in ('eq', 'ne'):
+            for val, k in ((x.ops[0], x.ops[1]), (x.ops[1], x.ops[0])):
+                d = f.def_of(S.strip_ext(f, val)) if k[0] == 'int' else None
+                if d is not None and d.op == 'load' and sc.is_buf(res.loc(d.ops[0]), 'yy_buffer_status'): return k[1]
     return None
 
 def r4(ctx, sc):
